@@ -351,7 +351,22 @@ def is_integer_table(rep, F, rule='R-TABLE'):
             else:
                 extra.append(s)
         if extra or nonpos is None:
-            rep.undecided(rule, fn.key + ':table[%s]' % ';'.join(e[:30] for e in extra), 'row outside the table (fast path): not decided', fn.where())
+            key = fn.key + ':table[%s]' % ';'.join(e[:30] for e in extra)
+            # a constant answer on a fast path can still be refuted by one sample: zero at several scales (fractional part
+            # zero -> true) and 10^-k-like values with a non-zero fraction (-> false)
+            if o in ('0', '1'):
+                from rules import samplerow
+                samples = [(0, k) for k in (1, 2, 3, 5, 19, 20, 40)] + [(v, k) for v in (1, -1, 5, 10, 100, 123, -1200, 12345, -987654321, 10 ** 20 + 1, 10 ** 40 + 10) for k in (-2, 0, 1, 2, 3, 5, 19, 20, 40)]
+                try:
+                    hit = samplerow.refute_constant(F, atoms, int(o), lambda v, k: int(k <= 0 or v % (10 ** k) == 0), samples)
+                except Undecided:
+                    hit = 'undecided'
+                if hit not in (None, 'undecided'):
+                    n += 1
+                    rep.violation(rule, key, 'this fast path returns %s for every input that reaches it, and the decimal %d * 10^-%d reaches it (all its guards hold under the accessor contracts: digits() of zero is 1, ...) although is_integer of that value is %s'
+                                  % ('true' if o == '1' else 'false', hit[0], hit[1], 'false' if o == '1' else 'true'), fn.where())
+                    continue
+            rep.undecided(rule, key, 'row outside the table (fast path): not decided', fn.where())
             continue
         n += 1
         key = fn.key + ':table[scale%s0]' % ('<=' if nonpos else '>')
